@@ -114,6 +114,18 @@ CLAIMED["C13"] = dict(cat="proof", ref="DESIGN.md §5 C13, §12",
         "the 'namespace+name vs dotted' rewrite is tested, not proved; known finding F18 (null namespace inside a namespaced type: the specification's form is "
         "not a fixed point); strings are interpolated without JSON escaping in both implementation and model (names/symbols are regex-restricted)",
    tech="Lean 4 proof (parser/canonical writer lockstep with an independent spec transformation) + cosmetic-rewrite harness")
+CLAIMED["C08"] = dict(cat="proof", ref="DESIGN.md §5 C08, §12",
+   text="PARTIAL proof. Lean theorems for each resolution step, for every input: c08_promotions (the promotion pairs of match_types and the conversions of "
+        "maybe_promote are the specification's; both are regenerated from /repo's source each run — Tables.resolve_tables), c08_primitives (a primitive under "
+        "a primitive reader type = the specification reader on every byte string), c08_enum_default, c08_field_matching (match by name, else reader alias, any "
+        "order, others skipped). The composition through arrays, maps, records, unions and named types at any depth (C08_full, stated in Properties/C08.lean) is "
+        "not proved yet: it is checked by comparing implementation, model (Resolve.readR) and the specification reader (Spec.resolveRead, written from the rule "
+        "list) on reader schemas derived from the writer schema by 1-4 of 27 kinds of compatible/incompatible evolution steps at random depths, reader == writer "
+        "as separate/cosmetically different object, schemaless and container readers.",
+   note="composition clause observed, not proved; reader field defaults are returned as the raw JSON value (bytes/fixed/nested-record defaults excluded from "
+        "generation); return_* options together with a reader schema and logical types under resolution are outside the model; eager schema matching of "
+        "arrays/maps (error even for an empty array) is taken as the specification's reading",
+   tech="Lean 4 step theorems + generated promotion tables + three-way differential run (implementation / model / specification reader)")
 PENDING = {}
 
 def main():
